@@ -119,6 +119,7 @@ def random_reject_op(rng, sim):
         {"k": "interpolate_grid", "q": [R(x[0] + Fraction(1, 64)), R(x[-1])], "method": "linear"},
         {"k": "interpolate_grid", "q": [R(x[0]), R((x[0] + x[-1]) / 2), R(x[-1] + 1)], "method": "linear", "qcontainer": "list"},
         {"k": "interpolate_n", "n": 5, "method": "quadratic"},
+        {"k": "interpolate_none", "method": rng.choice(["linear", "cubic"])},
     ])
 
 
